@@ -35,6 +35,11 @@ Lemma K_shapes :
   /\ sh_tg = true /\ sh_poly = true /\ sh_zs_grad2 = true /\ sh_md_grad2 = true /\ sh_np_grad2 = true /\ sh_tc_grad2 = true.
 Proof. repeat split; reflexivity. Qed.
 
+(* the producer of the ns-gradient cache (calculate_log_lambda_and_grads) has a single
+   exit and stores the cache before it: no path returns without refreshing the cache *)
+Lemma K_zs_producer : zs_producer_returns = 1%Z /\ zs_producer_cache_order = true.
+Proof. split; reflexivity. Qed.
+
 Section RC.
   Variable e : R -> R.
   Notation N := (RNum e).
